@@ -5,6 +5,8 @@ import (
 	"fmt"
 	"sort"
 
+	"google.golang.org/protobuf/reflect/protoreflect"
+
 	"google.golang.org/protobuf/zverif/ref"
 )
 
@@ -61,4 +63,61 @@ func NormalizeUnknown(b []byte) []byte {
 		out = append(out, r.Val...)
 	}
 	return out
+}
+
+// NormalizeDeep re-encodes, at every level of known message nesting, each record's tag in
+// shortest form (and the length prefixes of the nested messages it rewrites). Payloads of unknown
+// fields and scalar values are untouched. This is the "unknown-field tag normalization" under which
+// the table-driven and the reflection-based marshalers must produce identical bytes.
+func NormalizeDeep(md protoreflect.MessageDescriptor, b []byte, r Resolver) []byte {
+	rs, ok := ref.Split(b)
+	if !ok {
+		return b
+	}
+	var out []byte
+	for _, rec := range rs {
+		fd := FieldDesc(md, int32(rec.Num), r)
+		out = ref.Tag(out, rec.Num, rec.Typ)
+		var sub protoreflect.MessageDescriptor
+		if fd != nil {
+			sub = fd.Message()
+			if fd.IsMap() {
+				sub = fd.Message() // the entry message
+			}
+		}
+		switch {
+		case sub != nil && rec.Typ == 2 && fd.Kind() != protoreflect.GroupKind:
+			p := NormalizeDeep(sub, rec.Payload(), r)
+			out = ref.Varint(out, uint64(len(p)))
+			out = append(out, p...)
+		case sub != nil && rec.Typ == 3 && fd.Kind() == protoreflect.GroupKind:
+			endLen := len(rec.Val) - groupBodyLen(rec.Num, rec.Val)
+			body := rec.Val[:len(rec.Val)-endLen]
+			out = append(out, NormalizeDeep(sub, body, r)...)
+			out = ref.Tag(out, rec.Num, 4)
+		default:
+			out = append(out, rec.Val...)
+		}
+	}
+	return out
+}
+
+// groupBodyLen returns the length of the body of a group value (bytes before its end tag).
+func groupBodyLen(num int64, val []byte) int {
+	pos := 0
+	for pos < len(val) {
+		n2, typ, n, d := ref.ConsumeTag(val[pos:])
+		if d != ref.OK {
+			return len(val)
+		}
+		if typ == 4 && n2 == num {
+			return pos
+		}
+		m, d := ref.ConsumeValue(n2, typ, val[pos+n:], ref.DefaultDepth)
+		if d != ref.OK {
+			return len(val)
+		}
+		pos += n + m
+	}
+	return len(val)
 }
